@@ -35,9 +35,9 @@ FB(s, st) == [has |-> TRUE, s |-> s, st |-> st]      \* st: s without a trailing
 
 \* ------------------------------------------------------------------ SRT, custom syntax
 Actions  == {"read", "publish", "other", "READ", ""}
-CPaths   == {Val("p"), Val("a/b"), Val(""), Val("x=y,z"), Val("#!::r=q"), FB("p#feedbackplay", "p")}
+CPaths   == {Val("p"), Val("a/b"), Val(""), Val("x=y,z"), Val("m=publish,r=x"), FB("p#feedbackplay", "p")}
 CUsers   == {Val("u"), Val(""), Val("x=y"), Val("read"), Val("a b")}
-CPasses  == {Val("s"), Val(""), Val("u,v=w"), Val("#!::"), FB("x#feedbackplay", "x"), FB("#feedbackplay", "")}
+CPasses  == {Val("s"), Val(""), Val("u,v=w"), Val("#!"), FB("x#feedbackplay", "x"), FB("#feedbackplay", "")}
 CQueries == {NoneV, Val("k=v&w=1"), Val(""), Val("?a"), Val("publish"), FB("q#feedbackplay", "q")}
 CCreds   == {[has |-> FALSE, u |-> NoneV, p |-> NoneV]} \cup {[has |-> TRUE, u |-> u, p |-> p] : u \in CUsers, p \in CPasses}
 
@@ -131,7 +131,9 @@ Basic(u, p) == [kind |-> "basic", user |-> u, pass |-> p, raw |-> ""]
 Raw(s)      == [kind |-> "raw", user |-> "", pass |-> "", raw |-> s]
 
 HttpCase(proto, hdrs, decided, exp, l1) ==
-    [fam |-> proto, headers |-> hdrs, decided |-> decided, exp |-> exp, l1 |-> l1]
+    [fam |-> proto, headers |-> hdrs, decided |-> decided, exp |-> exp, l1 |-> l1,
+     dev |-> IF decided /\ l1 # exp THEN "RtspBasicPasswordWithColon" ELSE ""]
+HasColon(s) == HasChar(Chars(s), ":")
 
 HttpCases ==
     {HttpCase("http", <<Basic(u, p)>>, TRUE, Cred(u, p, ""), Cred(u, p, "")) : u \in HUsers, p \in HPasses}
@@ -157,7 +159,10 @@ HttpCases ==
 RUsers == {"user", "a b", "x=y", "u-1_2"}
 Digest(u) == [kind |-> "digest", user |-> u, pass |-> "", raw |-> ""]
 RtspCases ==
-    {HttpCase("rtsp", <<Basic(u, p)>>, TRUE, Cred(u, p, ""), Cred(u, p, "")) : u \in RUsers \cup {""}, p \in HPasses}
+    \* named deviation of layer 1: gortsplib's headers.Authorization splits user:pass at EVERY colon and
+    \* rejects the header unless there are exactly two parts, so a password containing ':' yields nothing
+    {HttpCase("rtsp", <<Basic(u, p)>>, TRUE, Cred(u, p, ""), IF HasColon(p) THEN NoCred ELSE Cred(u, p, ""))
+        : u \in RUsers \cup {""}, p \in HPasses}
     \cup {HttpCase("rtsp", <<Digest(u)>>, TRUE, Cred(u, "", ""), Cred(u, "", "")) : u \in RUsers}
     \cup {HttpCase("rtsp", <<>>, TRUE, NoCred, NoCred),
           HttpCase("rtsp", <<Raw("Basic !!!")>>, FALSE, NoCred, NoCred),
@@ -183,11 +188,12 @@ Init == part \in Parts /\ done = FALSE
 Next == ~done /\ done' = TRUE /\ UNCHANGED part
 Spec == Init /\ [][Next]_vars
 
-\* the two layers agree wherever the documentation decides (otherwise the model itself is inconsistent)
+\* the two layers agree wherever the documentation decides, except for the named deviation
 LayersAgreeWhereDecided ==
     done => \A c \in CasesOf(part) : c.decided =>
         IF c.fam = "link" THEN c.l1.user = c.exp.user /\ c.l1.cred = c.exp.cred /\ c.l1.err = c.exp.err
-        ELSE c.l1 = c.exp
+        ELSE IF c.fam = "srt" THEN c.l1 = c.exp
+        ELSE c.l1 = c.exp \/ c.dev # ""
 
 EmitCases == done => \A c \in CasesOf(part) : Emit("CASE", c)
 =============================================================================
